@@ -99,6 +99,16 @@ def documents(draw, max_params=8, chart_doc=False):
         tok = draw(st.sampled_from(["\\//", "\\//", "\\:", "\\;", "\\\\", "\\//x"]))
         key = draw(st.sampled_from(["BANNER", "BGCHANGES", "NOTES2", "FOO"]))
         segs.append(["param", "#" + key + ":" + "x" * max(0, k * 4096 - back) + tok + draw(st.sampled_from(["", "y", "tail"])) + ";\n"])
+    elif extra in (2, 3) and terminated:
+        # an alias next to its standard key where the standard key is key-only or empty: two different parameters
+        std, alias, val = draw(st.sampled_from([("NOTES", "NOTES2", "0000\n0000\n"), ("STOPS", "FREEZES", "1.000=2.000"), ("BGCHANGES", "ANIMATIONS", "1.000=x.png"), ("NOTES", "NOTES2", "1")]))
+        first = "#" + std + draw(st.sampled_from([";", ";", ":;"])) + "\n"
+        second = "#" + alias + ":" + val + ";\n"
+        if std == "NOTES" and draw(st.booleans()):
+            segs.append(["param", "#NOTEDATA:;\n"])
+        pair = [first, second] if draw(st.booleans()) else [second, first]
+        for t in pair:
+            segs.append(["param", t])
     elif extra == 1 and terminated:
         # the same colon-containing value under a multi-value key first and under an ordinary key later
         a, b = draw(st.sampled_from([("120", "240"), ("a", "b"), ("TIME=1", "LEN=2"), ("", "x")]))
